@@ -35,6 +35,11 @@ def backward_faults(ctx: Ctx, P):
         for pos in range(len(good) + 1):
             ins = good[:pos] + [bad] + good[pos:]
             yield bad_kind, pos, {**base, "inputs": ins}
+    # a leaf frozen (requires_grad_(False)) after the forward pass: still in the graph, no longer able to receive a .grad
+    reach = sorted(P.reach_leaves(tensors))
+    for pos, bad in enumerate(reach):
+        yield "parameter frozen after the forward pass", pos, {**base, "inputs": reach, "freeze": [bad]}
+        yield "parameter frozen after the forward pass (inputs defaulted)", pos, {**base, "inputs": None, "freeze": [bad]}
     yield "aggregator rejects (row count)", 0, {**base, "agg": ("const", w + [1])}
     yield "aggregator returns wrong length", 0, {**base, "agg": ("badlen", 1 + sum(numel(P.nodes[i].shape) for i in good))}
 
@@ -75,6 +80,16 @@ def mtl_faults(ctx: Ctx, M):
         tp = [list(x) for x in tasks]
         tp[t] = tp[t] + [M.features[0]]
         yield "task parameter is a feature", t, {**base, "tasks": tp}
+    for t in range(T):
+        for bad in tasks[t][:2]:
+            if bad in shared:
+                continue
+            for variant, kw in (("explicit", {}), ("tasks_params defaulted", {"tasks": None, "m_tasks": tasks}),
+                                ("both defaulted", {"tasks": None, "m_tasks": tasks, "shared": None, "m_shared": shared})):
+                yield f"task parameter frozen after the forward pass ({variant})", t, {**base, **kw, "freeze": [bad]}
+    for bad in shared[:2]:
+        for variant, kw in (("explicit", {}), ("shared_params defaulted", {"shared": None, "m_shared": shared})):
+            yield f"shared parameter frozen after the forward pass ({variant})", 0, {**base, **kw, "freeze": [bad]}
     trunk_nonleaf = [i for i in differentiable_nonleaves(P) if i < min(M.losses) and i not in M.features]
     norg = [i for i in P.leaves() if not P.nodes[i].rg]
     for bad_kind, pool in (("non-leaf parameter", trunk_nonleaf), ("parameter not requiring grad", norg)):
@@ -101,16 +116,20 @@ def run_fault(ctx: Ctx, api, P, kind, pos, call, reps):
     report = P.leaves()
     for rep in range(reps):
         pre = rand_pre(ctx.rng, P, report, p=0.6)
+        fr = call.get("freeze", ())
         if api == "backward":
             rerr, rg, _ = real_backward(P, torch.float64, call["tensors"], call["inputs"], call["agg"],
-                                        call["chunk"], False, pre, report)
-            merr, mg, _ = model_backward(ctx.driver, P, call["tensors"], list(dict.fromkeys(call["inputs"])),
-                                         call["agg"], call["chunk"], False, pre, report)
+                                        call["chunk"], False, pre, report, freeze=fr)
+            if fr:
+                merr, mg = "Rejected", None      # the property names this rejection; what it leaves behind is the observable
+            else:
+                merr, mg, _ = model_backward(ctx.driver, P, call["tensors"], list(dict.fromkeys(call["inputs"])),
+                                             call["agg"], call["chunk"], False, pre, report)
         else:
             retain = True
             rerr, rg, _ = real_mtl(P, torch.float64, call["losses"], call["features"], call["tasks"],
-                                   call["shared"], call["agg"], call["chunk"], retain, pre, report)
-            merr, mg, _ = model_mtl(ctx.driver, P, call["losses"], call["features"],
+                                   call["shared"], call["agg"], call["chunk"], retain, pre, report, freeze=fr)
+            merr, mg, _ = ("Rejected", None, None) if fr else model_mtl(ctx.driver, P, call["losses"], call["features"],
                                     call["tasks"] if call["tasks"] is not None else call["m_tasks"],
                                     call["shared"] if call["shared"] is not None else call["m_shared"],
                                     call["agg"], call["chunk"], retain, pre, report)
